@@ -198,6 +198,42 @@ def main():
         for (l, obs, mo) in r["model_diff"]:
             model_diffs_all.append((fam, l, obs, mo))
 
+    # ---------------------------------------------------------------- search for a failing input (escalation)
+    # a proof obligation, the translator or the correspondence broke but the quick scenarios satisfy the Spec: widen the
+    # implementation-vs-Spec search to the thorough generators (other seed), within a time budget, before giving up
+    escalated = 0
+    if tier == "quick" and not args.replay and not violations and (failed_thms or translator_failed or model_diffs_all or not ok_drv):
+        budget = float(os.environ.get("VERIF_ESCALATION_S", "240"))
+        t_esc = time.time()
+        rng2 = C.Rng(seed + 1)
+        for fam in plugin.FAMILIES:
+            if time.time() - t_esc > budget or violations:
+                break
+            try:
+                more = fam.generate("thorough", rng2)
+            except Exception as e:   # a generator must never take the check down
+                notes.append(f"escalation: generator of {fam.name} failed: {e}")
+                continue
+            seen = set()
+            more = [l for l in more if not (l in seen or seen.add(l))]
+            keep_model = fam.has_model
+            fam.has_model = False    # Spec verdicts only
+            for i in range(0, len(more), 20000):
+                if time.time() - t_esc > budget or violations:
+                    break
+                chunk = more[i:i + 20000]
+                r = classify_family(fam, chunk, "thorough", args.jobs)
+                escalated += len(chunk)
+                for (l, obs, so) in r["spec_fail"]:
+                    fk = fam.finding_key(l, obs, so)
+                    if fk in known_open:
+                        continue
+                    violations.append(("impl-vs-spec", fam.describe_spec_failure(l, obs, so), [l], so, obs, fam, fk))
+            fam.has_model = keep_model
+        total_eval += escalated
+        notes.append(f"escalation: {escalated} further scenarios (thorough generators, seed+1) searched for a failing input in "
+                     f"{time.time() - t_esc:.0f}s; found {len(violations)}")
+
     # ---------------------------------------------------------------- verdict
     wall = time.time() - t0
     exit_code = 0
